@@ -59,7 +59,8 @@ class Pool:
         line = json.dumps(req) + "\n"
         with self.lock:
             self.stats["own_interpreter" if own else "forked"] += 1
-            self.stats["ops_run"] += len(req["ops"]) * max(1, int(req.get("threads") or 0))
+            self.stats["ops_run"] += (sum(len(r) for r in req["rounds"]) if "rounds" in req else
+                                      len(req["ops"]) * max(1, int(req.get("threads") or 0)))
         if own:
             p = _spawn("worker_once")
             try:
@@ -136,6 +137,16 @@ class Oracle:
 
     def value(self, spec):
         return self.fresh[key(spec)]
+
+
+def round_mismatches(oracle, rounds, rres):
+    """(round, thread) pairs whose result is not the single-threaded fresh value of the operation"""
+    out = []
+    for ri, (rnd, res) in enumerate(zip(rounds, rres)):
+        for ti, (s, r) in enumerate(zip(rnd, res)):
+            if r != oracle.value(s) or c15ops.selfcheck_bad(r):
+                out.append((ri, ti))
+    return out
 
 
 def mismatches(oracle, ops, res):
@@ -282,3 +293,19 @@ class Shrinker:
             return []
         small = ddmin(list(ops), failing_many, deadline)
         return small if failing_many([small], True)[0] else None
+
+    def fill_failure(self, ops_a, ops_b, path, budget_s=40):
+        """two histories after which the memoisation-cache entry [path] holds different values -> smaller ones"""
+        deadline = time.time() + budget_s
+        mods = [path.split(":")[0]] if ":" in path else None
+
+        def value_after(cands):
+            ans = self.pool.run([{"ops": c, "snap": True, "snapmods": mods} for c in cands])
+            return [dict(self.rules.classify(a.get("diff", []))[1]).get(path, ABSENT) for a in ans]
+        va, vb = value_after([ops_a, ops_b])
+        if va == ABSENT or vb == ABSENT or va == vb:
+            return None
+        small_b = ddmin(list(ops_b), lambda cs: [v != ABSENT and v != va for v in value_after(cs)], deadline)
+        vb = value_after([small_b])[0]
+        small_a = ddmin(list(ops_a), lambda cs: [v != ABSENT and v != vb for v in value_after(cs)], deadline)
+        return small_a, small_b
